@@ -1,5 +1,6 @@
 import SqlObjVerif.Lemmas.Tx
 import SqlObjVerif.Lemmas.TxXCommit
+import SqlObjVerif.Lemmas.TxWF
 /-!
 # C07 — transactions: invisible until commit, visible after, erased by rollback, refused when finished
 
@@ -405,7 +406,7 @@ and debug output without effect, `_setAutoCommit`, `releaseConnection(explicit=T
 state the hand model's function yields — for ALL states, under the stated hypotheses only:
 * `AllIDsSpec A s.dc s.t` (interface assumption on what `allIDs()` returns in the state at hand);
 * `ConnWF` of the connection whose instances the loop expires (representation invariant: what a cache map refers
-  to has that key) — it holds in every state a `good` history reaches (`C07_translated_rep_reachable`).
+  to has that key) — it holds in every state ANY history reaches (`C07_translated_rep_reachable`).
 A semantic edit of these methods changes the translated programs and breaks these proofs. -/
 
 open SqlObjVerif.PyTx in
@@ -473,10 +474,16 @@ theorem C07_translated_loop_is_set_expiry (c : Conn) (wf : ConnWF c) (dc : Bool)
     expireKeys dc c ks = expireOn dc c (fun x => ks.contains x) :=
   expireKeys_eq wf dc ks
 
-/-- the representation invariant holds in every state a `good` history reaches -/
-theorem C07_translated_rep_reachable (dc : Bool) (ops : List Op) (hg : GoodHist (init dc) ops) :
+/-- the representation invariant is an invariant of the hand model: `ConnWF` of both connections is preserved by EVERY
+    step (no `good` hypothesis) … -/
+theorem C07_translated_rep_step (s : St) (op : Op) (h : ConnWF s.p ∧ ConnWF s.t) :
+    ConnWF (step s op).1.p ∧ ConnWF (step s op).1.t :=
+  step_wf h op
+
+/-- … so it holds in every state ANY history reaches -/
+theorem C07_translated_rep_reachable (dc : Bool) (ops : List Op) :
     ConnWF (run (init dc) ops).p ∧ ConnWF (run (init dc) ops).t :=
-  ⟨(run_inv (Inv.init dc) ops hg).wfP, (run_inv (Inv.init dc) ops hg).wfT⟩
+  run_wf (WF2.init dc) ops
 
 /-- non-vacuity of the interface assumption: with empty caches every `allIDs()` is empty … -/
 example (dc : Bool) : AllIDsSpec ⟨fun _ => [], fun _ _ _ => []⟩ dc (init dc).t :=
